@@ -9,6 +9,7 @@ import (
 	"time"
 
 	"github.com/drand/drand/v2/common"
+	"github.com/drand/drand/v2/common/key"
 	vrt "verif.local/vrt"
 	"verif.local/vrt/explore"
 )
@@ -44,18 +45,41 @@ type Scenario struct {
 	StartRound uint64
 	// Latency of every RPC in virtual time (default 10 ms; negative: none)
 	Latency time.Duration
+	// Reshares are the alternative resharing specifications (free choice); nil: none
+	Reshares []*ReshareSpec
+}
+
+// ReshareSpec describes a resharing whose output (new group and shares over the same secret) reaches the nodes
+// at a given moment.
+type ReshareSpec struct {
+	Name            string
+	New             *Keys         // key material of the new group (Keys.Reshare)
+	Keep            []int         // per new index: old node index, or -1 for a joiner
+	LearnAtRound    uint64        // the output is handed to the nodes half a second before this round ...
+	LearnOffset     time.Duration // ... plus this offset
+	Stagger         time.Duration // node i learns i*Stagger later
+	TransitionRound uint64
+	Failed          bool // the resharing failed: nobody learns anything
+	// OldSharePartials: after the transition, deliver to every new member partials made with OLD shares (and one
+	// that lies on the NEW polynomial at an index the new group dropped); they must not be accepted
+	OldSharePartials bool
 }
 
 type ScenarioResult struct {
-	S      *vrt.Sched
-	Net    *Net
-	Script int
-	Err    error
+	S       *vrt.Sched
+	Net     *Net
+	Script  int
+	Reshare int
+	Err     error
+	// per node: true if it belongs to the group that is live at the end of the run
+	InFinalGroup []bool
 	// per node: database writes with their virtual time
 	Writes  [][]*common.Beacon
 	WriteAt [][]time.Time
 	End     time.Time
 	Signs   []SignRec
+	// OldShare: partials made with shares of the previous group handed to members of the new one
+	OldShare []*Delivery
 }
 
 func (sc *Scenario) Run(devs []vrt.Dev, labels bool) *ScenarioResult {
@@ -141,6 +165,17 @@ func (sc *Scenario) Run(devs []vrt.Dev, labels bool) *ScenarioResult {
 			} else if err := nd.H.Start(ctx); err != nil {
 				res.Err = err
 				return
+			}
+		}
+		res.InFinalGroup = make([]bool, n)
+		for i := range res.InFinalGroup {
+			res.InFinalGroup[i] = true
+		}
+		if len(sc.Reshares) > 0 {
+			res.Reshare = vrt.ChooseFree(len(sc.Reshares), "reshare specification")
+			rs := sc.Reshares[res.Reshare]
+			if !rs.Failed {
+				sc.runReshare(ctx, nt, rs, res)
 			}
 		}
 		if len(script) > 0 {
@@ -425,4 +460,155 @@ func (sc *Scenario) JudgeLiveness(r *ScenarioResult, x *explore.Exec, prefix str
 			add("no-contribution-after-restart", "node %d was restarted at round %d but no partial of it was accepted by a peer afterwards", f.Node, f.AtRound)
 		}
 	}
+}
+
+func (sc *Scenario) runReshare(ctx context.Context, nt *Net, rs *ReshareSpec, res *ScenarioResult) {
+	k := sc.Keys
+	nk := rs.New
+	tt := common.TimeOfRound(k.Period, k.Genesis, rs.TransitionRound)
+	newGroup := func() *key.Group {
+		g := nk.Group()
+		g.TransitionTime = tt
+		return g
+	}
+	oldGroup := k.Group()
+	stays := map[int]int{} // old node index -> new index
+	for ni, oi := range rs.Keep {
+		if oi >= 0 {
+			stays[oi] = ni
+		}
+	}
+	for i := range res.InFinalGroup {
+		_, ok := stays[i]
+		res.InFinalGroup[i] = ok
+	}
+	vrt.GoNamed("dkg-output", func() {
+		clk := &vrt.Clock{}
+		at := time.Unix(common.TimeOfRound(k.Period, k.Genesis, rs.LearnAtRound), 0).Add(-500*time.Millisecond + rs.LearnOffset)
+		if d := at.Sub(clk.Now()); d > 0 {
+			clk.Sleep(d)
+		}
+		nOld := len(nt.Nodes)
+		for i := 0; i < nOld; i++ {
+			if i > 0 && rs.Stagger > 0 {
+				clk.Sleep(rs.Stagger)
+			}
+			nd := nt.Nodes[i]
+			if ni, ok := stays[i]; ok {
+				vrt.Logf("reshare: node %d learns the new group (new index %d, transition at round %d)", i, ni, rs.TransitionRound)
+				nd.H.TransitionNewGroup(ctx, nk.Share(ni), newGroup())
+				nd.NewKeys, nd.NewIdx = nk, ni
+			} else {
+				vrt.Logf("reshare: node %d leaves at the transition", i)
+				h := nd.H
+				vrt.GoNamed("leaver-stop", func() { _ = h.StopAt(ctx, tt-1) })
+			}
+		}
+		for ni, oi := range rs.Keep {
+			if oi >= 0 {
+				continue
+			}
+			vrt.Logf("reshare: joiner with new index %d starts", ni)
+			nd, err := nt.AddNodeGroup(ctx, nk, ni, "memdb", 0, newGroup())
+			if err != nil {
+				res.Err = err
+				return
+			}
+			idx := nd.Idx
+			res.Writes = append(res.Writes, nil)
+			res.WriteAt = append(res.WriteAt, nil)
+			res.InFinalGroup = append(res.InFinalGroup, true)
+			nd.Mon.OnPut = func(b *common.Beacon) {
+				res.Writes[idx] = append(res.Writes[idx], b)
+				res.WriteAt[idx] = append(res.WriteAt[idx], vrt.VNow())
+				vrt.Logf("node %d (joiner): database write round %d", idx, b.Round)
+			}
+			if err := nd.H.Transition(ctx, oldGroup); err != nil {
+				res.Err = err
+				return
+			}
+		}
+		if rs.OldSharePartials {
+			// two rounds after the transition
+			at := time.Unix(common.TimeOfRound(k.Period, k.Genesis, rs.TransitionRound+2), 0).Add(200 * time.Millisecond)
+			if d := at.Sub(clk.Now()); d > 0 {
+				clk.Sleep(d)
+			}
+			r := rs.TransitionRound + 3 // the next round: accepted one ahead if valid
+			for _, nd := range nt.Nodes {
+				if nd.Down || nd.NewKeys == nil && nd.Keys != nk {
+					continue
+				}
+				last, err := nd.Base.Last(ctx)
+				if err != nil {
+					continue
+				}
+				prev := last.Signature
+				if last.Round != r-1 {
+					continue
+				}
+				for oi := 0; oi < k.N; oi++ {
+					if nd.Idx == oi {
+						continue
+					}
+					p := k.Partial(oi, r, prev) // made with the OLD share of old member oi
+					d := &Delivery{From: -2, To: nd.Idx, Round: r, Sig: p.PartialSig, SenderNow: vrt.VNow(), SignerIdx: k.Indices[oi]}
+					_, perr := nd.H.ProcessPartialBeacon(peerCtx(ctx, k.Addr(oi)), p)
+					d.ReceiverOK = perr == nil
+					res.OldShare = append(res.OldShare, d)
+					vrt.Logf("reshare: old-share partial of old member %d for round %d to node %d accepted=%v", oi, r, nd.Idx, d.ReceiverOK)
+				}
+				// a partial ON the new polynomial at every index the new group does not contain
+				for ix := 0; ix < k.N+1; ix++ {
+					if nk.IsMemberIndex(ix) {
+						continue
+					}
+					pp := prev
+					if k.SchemeID != "pedersen-bls-chained" {
+						pp = nil
+					}
+					p := nk.PartialRaw(r, prev, nk.SignAtIndex(ix, r, pp))
+					d := &Delivery{From: -3, To: nd.Idx, Round: r, Sig: p.PartialSig, SenderNow: vrt.VNow(), SignerIdx: ix}
+					_, perr := nd.H.ProcessPartialBeacon(peerCtx(ctx, "198.51.100.9:1"), p)
+					d.ReceiverOK = perr == nil
+					res.OldShare = append(res.OldShare, d)
+					vrt.Logf("reshare: on-polynomial partial at dropped index %d to node %d accepted=%v", ix, nd.Idx, d.ReceiverOK)
+				}
+			}
+		}
+	})
+}
+
+// JudgeReshare evaluates C07 on a scenario run with a resharing: continuity through the transition round for the
+// members of the live group, and refusal of partials made with shares of the previous group.
+func (sc *Scenario) JudgeReshare(r *ScenarioResult, x *explore.Exec, prefix string) {
+	if r.Err != nil || r.S.NativeBlock != "" || r.S.ReplayDivergence != "" || r.Net == nil || len(sc.Reshares) == 0 {
+		return
+	}
+	k := sc.Keys
+	rs := sc.Reshares[r.Reshare]
+	add := func(fp, f string, a ...any) {
+		x.Violations = append(x.Violations, explore.Violation{Fingerprint: prefix + "/" + fp, Detail: fmt.Sprintf("%s reshare %q (transition at round %d) script#%d: ", k.SchemeID, rs.Name, rs.TransitionRound, r.Script) + fmt.Sprintf(f, a...)})
+	}
+	want := sc.CurrentRoundAtEnd(r)
+	heads := r.Net.Heads()
+	for i, nd := range r.Net.Nodes {
+		if nd.Down || i >= len(r.InFinalGroup) || !r.InFinalGroup[i] {
+			continue
+		}
+		if heads[i] < want {
+			add("halted", "node %d (member of the live group) has head %d at the end, round %d has come; heads %v", i, heads[i], want, heads)
+			break
+		}
+	}
+	for _, d := range r.OldShare {
+		if d.ReceiverOK {
+			what := "a partial made with a share of the previous group"
+			if d.From == -3 {
+				what = "a partial at an index that is not in the live group"
+			}
+			add("old-share-accepted", "after the transition node %d accepted %s (signer index %d, round %d)", d.To, what, d.SignerIdx, d.Round)
+		}
+	}
+	x.Outcome += fmt.Sprintf(" reshare=%s old-share-probes=%d", rs.Name, len(r.OldShare))
 }
